@@ -1,7 +1,7 @@
 /- line-protocol handler for the df_slice / df_unslice model (C13)
 
    bound  ::= N | T:<us> (a date) | (L I:<us since midnight>) (a time of day)
-   oc     ::= N | S:<hex>                        openclose
+   oc     ::= N | S:<hex> | (L)                  openclose; (L) = not passed (df_slice's default '(]')
    frame  ::= (T I:<width> (L (T T:<t> v*)*))
    (slice one <ts> <lb> <ub> <oc>)                       df_slice(series, lb, ub, oc)        -> series
    (slice onef <frame> <lb> <ub> <oc>)                   df_slice(frame, lb, ub, oc)         -> frame
@@ -37,6 +37,7 @@ def boundOf : Val → Option Bound
 def ocOf : Val → Option (Option (List Char))
   | .cell .none => some Option.none
   | .cell (.str s) => some (some s.toList)
+  | .list [] => some (some ['(', ']'])          -- argument omitted: `df_slice(..., openclose = '(]')`
   | _ => Option.none
 
 def datesOf : Val → Option (Option (List Int))
